@@ -151,7 +151,7 @@ def evalFilterAux (e : Event) (neg : Bool) : Filter → Tri × Classes
     -- not say whether wildcards are anchored at the token or at the value; left to the engine
     let whole := e.fields.any (fun (_, v) => glob w v.text)
     let t := if termMatches w e then (if w.contains '*' && !whole then Tri.either else Tri.yes) else Tri.no
-    (t, if neg then ["free-text-negation"] else [])
+    (t, [])
   | .cmp f op l =>
     match e.get f with
     | none => if neg then (.either, []) else evalCmp none op l
